@@ -243,4 +243,370 @@ theorem ArgsSpan.two_args_disjoint {args : List TypeRef} {seg : List Token} (h :
   obtain ⟨m, sb, r', rfl, hm, h3, _⟩ := h2.split rfl
   exact ⟨l, sa, m, sb, r', by simp, hm, h1, h3⟩
 
+
+/-! ## 2. function types, parameters: the list-of-successes layer -/
+
+mutual
+/-- `TSpan t seg`: the (data or function) type reference `t` was read from exactly `seg` -/
+inductive TSpan : TypeRef → List Token → Prop
+  | data (t : TypeRef) (seg : List Token) : TySpan t seg → TSpan t seg
+  | fn (f : FnSig) (seg : List Token) : FSpan f seg → TSpan (.fn f (tokSpan seg)) seg
+/-- the parameters, then the thrown types and the return type of a signature lie, in this order, in disjoint
+    sub-segments after a non-empty left context (`function` targets `(`) -/
+inductive FSpan : FnSig → List Token → Prop
+  | mk (fl : Option (List String)) (fp : Pos) (ps : List Param) (thr : Option (List TypeRef)) (ret : Option TypeRef)
+      (l sp sr : List Token) : l ≠ [] → PsSpan ps sp → TsSpan (thr.getD [] ++ ret.toList) sr →
+      FSpan (.mk fl fp ps thr ret) (l ++ sp ++ sr)
+/-- a parameter `name : type` was read from exactly `seg`; its type from everything after the colon -/
+inductive PSpan : Param → List Token → Prop
+  | mk (n : String) (t : TypeRef) (nm colon : Token) (st : List Token) : TSpan t st →
+      PSpan (.mk n t (tokSpan (nm :: colon :: st))) (nm :: colon :: st)
+/-- parameters in order in disjoint sub-segments -/
+inductive PsSpan : List Param → List Token → Prop
+  | nil (seg : List Token) : PsSpan [] seg
+  | cons (p : Param) (ps : List Param) (l sp g : List Token) : PSpan p sp → PsSpan ps g → PsSpan (p :: ps) (l ++ sp ++ g)
+/-- type references in order in disjoint sub-segments -/
+inductive TsSpan : List TypeRef → List Token → Prop
+  | nil (seg : List Token) : TsSpan [] seg
+  | cons (a : TypeRef) (as : List TypeRef) (l sa g : List Token) : TSpan a sa → TsSpan as g → TsSpan (a :: as) (l ++ sa ++ g)
+end
+
+/-- the recorded position of a parameter -/
+def Param.pos : Param → Pos
+  | .mk _ _ p => p
+
+theorem FSpan.ne_nil {f : FnSig} {seg : List Token} (h : FSpan f seg) : seg ≠ [] := by
+  cases h with
+  | mk _ _ _ _ _ l sp sr hl _ _ => cases l with
+    | nil => exact absurd rfl hl
+    | cons a l => simp
+
+theorem TSpan.ne_nil {t : TypeRef} {seg : List Token} (h : TSpan t seg) : seg ≠ [] := by
+  cases h with
+  | data _ _ h => exact h.ne_nil
+  | fn _ _ h => exact h.ne_nil
+
+theorem TSpan.pos_eq {t : TypeRef} {seg : List Token} (h : TSpan t seg) : t.pos = tokSpan seg := by
+  cases h with
+  | data _ _ h => exact h.pos_eq
+  | fn _ _ h => rfl
+
+theorem PSpan.pos_eq {p : Param} {seg : List Token} (h : PSpan p seg) : p.pos = tokSpan seg := by
+  cases h; rfl
+
+theorem PSpan.ne_nil {p : Param} {seg : List Token} (h : PSpan p seg) : seg ≠ [] := by
+  cases h; simp
+
+theorem TsSpan.left {as : List TypeRef} {s : List Token} (h : TsSpan as s) (q : List Token) : TsSpan as (q ++ s) := by
+  cases h with
+  | nil => exact TsSpan.nil _
+  | cons a as l sa g h1 h2 =>
+    have := TsSpan.cons a as (q ++ l) sa g h1 h2
+    simpa using this
+
+theorem TsSpan.right {as : List TypeRef} {s : List Token} (h : TsSpan as s) (q : List Token) : TsSpan as (s ++ q) := by
+  induction as generalizing s with
+  | nil => exact TsSpan.nil _
+  | cons a as ih =>
+    cases h with
+    | cons _ _ l sa g h1 h2 =>
+      have := TsSpan.cons a as l sa (g ++ q) h1 (ih h2)
+      simpa using this
+
+theorem TsSpan.append {as bs : List TypeRef} {s1 s2 : List Token} (h1 : TsSpan as s1) (h2 : TsSpan bs s2) :
+    TsSpan (as ++ bs) (s1 ++ s2) := by
+  induction as generalizing s1 with
+  | nil => exact h2.left s1
+  | cons a as ih =>
+    cases h1 with
+    | cons _ _ l sa g ha hg =>
+      have := TsSpan.cons a (as ++ bs) l sa (g ++ s2) ha (ih hg)
+      simpa using this
+
+theorem TsSpan.single {a : TypeRef} {s : List Token} (h : TSpan a s) : TsSpan [a] s := by
+  have := TsSpan.cons a [] [] s [] h (TsSpan.nil _)
+  simpa using this
+
+theorem PsSpan.left {ps : List Param} {s : List Token} (h : PsSpan ps s) (q : List Token) : PsSpan ps (q ++ s) := by
+  cases h with
+  | nil => exact PsSpan.nil _
+  | cons a as l sa g h1 h2 =>
+    have := PsSpan.cons a as (q ++ l) sa g h1 h2
+    simpa using this
+
+theorem PsSpan.right {ps : List Param} {s : List Token} (h : PsSpan ps s) (q : List Token) : PsSpan ps (s ++ q) := by
+  induction ps generalizing s with
+  | nil => exact PsSpan.nil _
+  | cons a as ih =>
+    cases h with
+    | cons _ _ l sa g h1 h2 =>
+      have := PsSpan.cons a as l sa (g ++ q) h1 (ih h2)
+      simpa using this
+
+theorem FSpan.left {f : FnSig} {s : List Token} (h : FSpan f s) (q : List Token) : FSpan f (q ++ s) := by
+  cases h with
+  | mk fl fp ps thr ret l sp sr hl h1 h2 =>
+    have := FSpan.mk fl fp ps thr ret (q ++ l) sp sr (by simp [hl]) h1 h2
+    simpa using this
+
+/-- every candidate `(a, rest)` of `p ts` consumed a prefix of `ts` of which `a` is the span -/
+def SpanL {α : Type} (S : α → List Token → Prop) (p : PL α) : Prop :=
+  ∀ ts a rest, (a, rest) ∈ p ts → ∃ pre, ts = pre ++ rest ∧ S a pre
+
+theorem SpanL.zero {α : Type} (S : α → List Token → Prop) (p : PL α) (h : ∀ ts, p ts = []) : SpanL S p := by
+  intro ts a rest hm; rw [h] at hm; cases hm
+
+theorem typeRefL_span_step (g : Nat) (hF : SpanL FSpan (functionL g)) : SpanL TSpan (typeRefL (g+1)) := by
+  intro ts a rest hm
+  rw [typeRefL.eq_2] at hm
+  split at hm
+  · obtain ⟨⟨f, r⟩, hfr, he⟩ := List.mem_map.mp hm
+    simp only [Prod.mk.injEq] at he
+    obtain ⟨rfl, rfl⟩ := he
+    obtain ⟨pre, rfl, hc⟩ := hF _ _ _ hfr
+    refine ⟨pre, rfl, ?_⟩
+    rw [spanPos_eq_tokSpan]
+    exact TSpan.fn _ _ hc
+  · cases hdt : dataType (g+1) ts with
+    | none => simp [hdt] at hm
+    | some x =>
+      simp only [hdt, List.mem_singleton] at hm
+      subst hm
+      obtain ⟨pre, h1, _, _, h2⟩ := dataType_span (g+1) ts a rest hdt
+      exact ⟨pre, h1, TSpan.data _ _ h2⟩
+
+theorem sigBody_span (g : Nat) (flags : Option (List String)) (fpos : Pos)
+    (hP : SpanL PsSpan (paramListL g))
+    (hTh : SpanL (fun o => TsSpan (o.getD [])) (throwingL g))
+    (hT : SpanL TSpan (typeRefL g)) :
+    SpanL FSpan (sigBody flags fpos g) := by
+  intro ts f rest hm
+  unfold sigBody at hm
+  cases hk : kw? "(" ts with
+  | none => simp [hk] at hm
+  | some ts1 =>
+    obtain ⟨lp, rfl, _⟩ := kw?_inv hk
+    simp only [hk] at hm
+    obtain ⟨⟨ps, ts2⟩, hps, hm2⟩ := List.mem_flatMap.mp hm
+    clear hm
+    obtain ⟨pp, rfl, hpp⟩ := hP _ _ _ hps
+    dsimp only at hm2
+    cases hk2 : kw? ")" ts2 with
+    | none => simp [hk2] at hm2
+    | some ts3 =>
+      obtain ⟨rp, rfl, _⟩ := kw?_inv hk2
+      simp only [hk2] at hm2
+      obtain ⟨⟨thr, ts4⟩, hthr, hm3⟩ := List.mem_flatMap.mp hm2
+      clear hm2
+      obtain ⟨pt, rfl, hpt⟩ := hTh _ _ _ hthr
+      dsimp only at hm3 hpt
+      rcases List.mem_append.mp hm3 with hm | hm
+      · split at hm
+        · next harrow =>
+          obtain ⟨ar, har, _⟩ := peekKw_inv harrow
+          obtain ⟨⟨r, ts5⟩, hr, he⟩ := List.mem_map.mp hm
+          simp only [Prod.mk.injEq] at he
+          obtain ⟨rfl, rfl⟩ := he
+          obtain ⟨pr, hpr, hcr⟩ := hT _ _ _ hr
+          refine ⟨lp :: (pp ++ rp :: (pt ++ ar :: pr)), ?_, ?_⟩
+          · rw [har, hpr]; simp
+          · have h2 : TsSpan (thr.getD [] ++ (some r).toList) (rp :: (pt ++ ar :: pr)) := by
+              have := ((hpt.append ((TsSpan.single hcr).left [ar])).left [rp])
+              simpa using this
+            have := FSpan.mk flags fpos ps thr (some r) [lp] pp _ (by simp) hpp h2
+            simpa using this
+        · simp at hm
+      · simp only [List.mem_singleton, Prod.mk.injEq] at hm
+        obtain ⟨rfl, rfl⟩ := hm
+        refine ⟨lp :: (pp ++ rp :: pt), by simp, ?_⟩
+        have h2 : TsSpan (thr.getD [] ++ (none : Option TypeRef).toList) (rp :: pt) := by
+          have := hpt.left [rp]
+          simpa using this
+        have := FSpan.mk flags fpos ps thr none [lp] pp _ (by simp) hpp h2
+        simpa using this
+
+theorem functionL_span_step (g : Nat)
+    (hP : SpanL PsSpan (paramListL g))
+    (hTh : SpanL (fun o => TsSpan (o.getD [])) (throwingL g))
+    (hT : SpanL TSpan (typeRefL g)) :
+    SpanL FSpan (functionL (g+1)) := by
+  intro ts f rest hm
+  rw [functionL_succ] at hm
+  split at hm
+  · next hfn =>
+    obtain ⟨fk, hfk, _⟩ := peekKw_inv hfn
+    obtain ⟨tg, htg, _⟩ := targets_sound ts.tail
+    obtain ⟨pre, hpre, hc⟩ := sigBody_span g _ _ hP hTh hT _ _ _ hm
+    refine ⟨fk :: (tg ++ pre), ?_, ?_⟩
+    · rw [hfk, htg, hpre]; simp
+    · have := hc.left (fk :: tg)
+      simpa using this
+  · exact sigBody_span g _ _ hP hTh hT _ _ _ hm
+
+theorem paramL_span_step (g : Nat) (hT : SpanL TSpan (typeRefL g)) : SpanL PSpan (paramL (g+1)) := by
+  intro ts0 p rest hm
+  rw [paramL.eq_2] at hm
+  cases hi : ident ts0 with
+  | none => simp [hi] at hm
+  | some y =>
+    obtain ⟨n, ts⟩ := y
+    obtain ⟨nt, rfl, _⟩ := ident_inv hi
+    simp only [hi] at hm
+    cases hk : kw? ":" ts with
+    | none => simp [hk] at hm
+    | some ts1 =>
+      obtain ⟨colon, rfl, _⟩ := kw?_inv hk
+      simp only [hk] at hm
+      obtain ⟨⟨t, r⟩, ht, he⟩ := List.mem_map.mp hm
+      simp only [Prod.mk.injEq] at he
+      obtain ⟨rfl, rfl⟩ := he
+      obtain ⟨pre, rfl, hc⟩ := hT _ _ _ ht
+      refine ⟨nt :: colon :: pre, by simp, ?_⟩
+      rw [← List.cons_append, ← List.cons_append, spanPos_eq_tokSpan]
+      exact PSpan.mk _ _ _ _ _ hc
+
+theorem PsSpan.cons' {p : Param} {ps : List Param} {sp g : List Token} (h1 : PSpan p sp) (h2 : PsSpan ps g) :
+    PsSpan (p :: ps) (sp ++ g) := by
+  have := PsSpan.cons p ps [] sp g h1 h2
+  simpa using this
+
+theorem paramList1L_span_step (g : Nat) (hp : SpanL PSpan (paramL g)) (h1 : SpanL PsSpan (paramList1L g)) :
+    SpanL PsSpan (paramList1L (g+1)) := by
+  intro ts ps rest hm
+  rw [paramList1L.eq_2] at hm
+  rcases List.mem_append.mp hm with hm | hm
+  · obtain ⟨⟨p, ts1⟩, hpm, hm2⟩ := List.mem_flatMap.mp hm
+    clear hm
+    obtain ⟨pp, rfl, hpp⟩ := hp _ _ _ hpm
+    dsimp only at hm2
+    have hm := hm2
+    split at hm
+    · next hc =>
+      obtain ⟨c, hce, _⟩ := peekKw_inv hc
+      obtain ⟨⟨ps', r⟩, hps, he⟩ := List.mem_map.mp hm
+      simp only [Prod.mk.injEq] at he
+      obtain ⟨rfl, rfl⟩ := he
+      obtain ⟨pr, hpr, hcr⟩ := h1 _ _ _ hps
+      refine ⟨pp ++ c :: pr, by rw [hce, hpr]; simp, ?_⟩
+      exact PsSpan.cons' hpp (hcr.left [c])
+    · simp at hm
+  · obtain ⟨⟨p, ts1⟩, hpm, he⟩ := List.mem_map.mp hm
+    simp only [Prod.mk.injEq] at he
+    obtain ⟨rfl, rfl⟩ := he
+    obtain ⟨pp, rfl, hpp⟩ := hp _ _ _ hpm
+    refine ⟨pp, rfl, ?_⟩
+    have := PsSpan.cons' hpp (PsSpan.nil [])
+    simpa using this
+
+theorem paramListL_span_step (g : Nat) (h1 : SpanL PsSpan (paramList1L g)) : SpanL PsSpan (paramListL (g+1)) := by
+  intro ts ps rest hm
+  rw [paramListL.eq_2] at hm
+  rcases List.mem_append.mp hm with hm | hm
+  · split at hm
+    · exact h1 _ _ _ hm
+    · simp at hm
+  · simp only [List.mem_singleton, Prod.mk.injEq] at hm
+    obtain ⟨rfl, rfl⟩ := hm
+    exact ⟨[], by simp, PsSpan.nil _⟩
+
+theorem throwList1L_span_step (g : Nat) (hT : SpanL TSpan (typeRefL g)) (h1 : SpanL TsSpan (throwList1L g)) :
+    SpanL TsSpan (throwList1L (g+1)) := by
+  intro ts l rest hm
+  rw [throwList1L.eq_2] at hm
+  rcases List.mem_append.mp hm with hm | hm
+  · obtain ⟨⟨t, ts1⟩, htm, hm2⟩ := List.mem_flatMap.mp hm
+    clear hm
+    obtain ⟨pp, rfl, hpp⟩ := hT _ _ _ htm
+    dsimp only at hm2
+    have hm := hm2
+    split at hm
+    · next hc =>
+      obtain ⟨c, hce, _⟩ := peekKw_inv hc
+      obtain ⟨⟨l', r⟩, hl, he⟩ := List.mem_map.mp hm
+      simp only [Prod.mk.injEq] at he
+      obtain ⟨rfl, rfl⟩ := he
+      obtain ⟨pr, hpr, hcr⟩ := h1 _ _ _ hl
+      refine ⟨pp ++ c :: pr, by rw [hce, hpr]; simp, ?_⟩
+      have := (TsSpan.single hpp).append (hcr.left [c])
+      simpa using this
+    · simp at hm
+  · obtain ⟨⟨t, ts1⟩, htm, he⟩ := List.mem_map.mp hm
+    simp only [Prod.mk.injEq] at he
+    obtain ⟨rfl, rfl⟩ := he
+    obtain ⟨pp, rfl, hpp⟩ := hT _ _ _ htm
+    exact ⟨pp, rfl, TsSpan.single hpp⟩
+
+theorem throwingL_span_step (g : Nat) (h1 : SpanL TsSpan (throwList1L g)) :
+    SpanL (fun o => TsSpan (o.getD [])) (throwingL (g+1)) := by
+  intro ts o rest hm
+  rw [throwingL.eq_2] at hm
+  split at hm
+  · next hth =>
+    obtain ⟨th, hthe, _⟩ := peekKw_inv hth
+    rcases List.mem_append.mp hm with hm | hm
+    · obtain ⟨⟨l, r⟩, hl, he⟩ := List.mem_map.mp hm
+      simp only [Prod.mk.injEq] at he
+      obtain ⟨rfl, rfl⟩ := he
+      obtain ⟨pr, hpr, hcr⟩ := h1 _ _ _ hl
+      refine ⟨th :: pr, by rw [hthe, hpr]; simp, ?_⟩
+      have := hcr.left [th]
+      simpa using this
+    · simp only [List.mem_singleton, Prod.mk.injEq] at hm
+      obtain ⟨rfl, rfl⟩ := hm
+      exact ⟨[th], by rw [hthe]; simp, TsSpan.nil _⟩
+  · simp only [List.mem_singleton, Prod.mk.injEq] at hm
+    obtain ⟨rfl, rfl⟩ := hm
+    exact ⟨[], by simp, TsSpan.nil _⟩
+
+/-- all seven functions of the function-type sub-grammar, by induction on the fuel -/
+theorem pl_span (fuel : Nat) :
+    SpanL TSpan (typeRefL fuel) ∧ SpanL FSpan (functionL fuel) ∧ SpanL PsSpan (paramListL fuel) ∧
+    SpanL PsSpan (paramList1L fuel) ∧ SpanL PSpan (paramL fuel) ∧
+    SpanL (fun o => TsSpan (o.getD [])) (throwingL fuel) ∧ SpanL TsSpan (throwList1L fuel) := by
+  induction fuel with
+  | zero =>
+    exact ⟨SpanL.zero _ _ (fun _ => rfl), SpanL.zero _ _ (fun _ => rfl), SpanL.zero _ _ (fun _ => rfl),
+      SpanL.zero _ _ (fun _ => rfl), SpanL.zero _ _ (fun _ => rfl), SpanL.zero _ _ (fun _ => rfl),
+      SpanL.zero _ _ (fun _ => rfl)⟩
+  | succ g ih =>
+    obtain ⟨hT, hF, hPL, hP1, hP, hTh, hT1⟩ := ih
+    exact ⟨typeRefL_span_step g hF, functionL_span_step g hPL hTh hT, paramListL_span_step g hP1,
+      paramList1L_span_step g hP hP1, paramL_span_step g hT, throwingL_span_step g hT1,
+      throwList1L_span_step g hT hT1⟩
+
+/-- **type references (data and function types)**: every candidate's position is the span of exactly the tokens it
+    consumed, and everything inside nests (`TSpan`) -/
+theorem typeRefL_span (fuel : Nat) (ts : List Token) (t : TypeRef) (rest : List Token) (h : (t, rest) ∈ typeRefL fuel ts) :
+    ∃ pre, ts = pre ++ rest ∧ pre ≠ [] ∧ t.pos = tokSpan pre ∧ TSpan t pre := by
+  obtain ⟨pre, h1, h2⟩ := (pl_span fuel).1 ts t rest h
+  exact ⟨pre, h1, h2.ne_nil, h2.pos_eq, h2⟩
+
+/-- **function signatures**: parameters, thrown types and return type lie in order inside the consumed tokens -/
+theorem functionL_span (fuel : Nat) (ts : List Token) (f : FnSig) (rest : List Token) (h : (f, rest) ∈ functionL fuel ts) :
+    ∃ pre, ts = pre ++ rest ∧ pre ≠ [] ∧ FSpan f pre := by
+  obtain ⟨pre, h1, h2⟩ := (pl_span fuel).2.1 ts f rest h
+  exact ⟨pre, h1, h2.ne_nil, h2⟩
+
+/-- **parameters**: the position of a parameter is the span of `name : type`, its type that of everything after `:` -/
+theorem paramL_span (fuel : Nat) (ts : List Token) (p : Param) (rest : List Token) (h : (p, rest) ∈ paramL fuel ts) :
+    ∃ pre, ts = pre ++ rest ∧ pre ≠ [] ∧ p.pos = tokSpan pre ∧ PSpan p pre := by
+  obtain ⟨pre, h1, h2⟩ := (pl_span fuel).2.2.2.2.1 ts p rest h
+  exact ⟨pre, h1, h2.ne_nil, h2.pos_eq, h2⟩
+
+/-- **a parameter lies within its signature** (flat reading of `PsSpan`) -/
+theorem PsSpan.split {ps : List Param} {seg : List Token} (h : PsSpan ps seg)
+    {xs ys : List Param} {p : Param} (he : ps = xs ++ p :: ys) :
+    ∃ l sp r, seg = l ++ sp ++ r ∧ PSpan p sp ∧ PsSpan ys r := by
+  induction xs generalizing ps seg with
+  | nil =>
+    subst he
+    cases h with
+    | cons _ _ l sp g h1 h2 => exact ⟨l, sp, g, rfl, h1, h2⟩
+  | cons x xs ih =>
+    subst he
+    cases h with
+    | cons _ _ l sp g h1 h2 =>
+      obtain ⟨l', sp', r, rfl, h3, h4⟩ := ih h2 rfl
+      exact ⟨l ++ sp ++ l', sp', r, by simp, h3, h4⟩
+
 end Pydjinni.Front
